@@ -70,7 +70,9 @@ def scenarios(nmax, bmax, wmax):
             if keyed:
                 out.append(cs.make(entry, n, b, w, faults=fp, key=True))
             if entry in CATCH_ENTRIES:
-                for catch in ('true', 'user', 'tuple', 'exception'):
+                for catch in ('true', 'user', 'tuple', 'exception', 'false'):
+                    if catch == 'false' and fi % 2:
+                        continue
                     out.append(cs.make(entry, n, b, w, faults=fp, catch=catch))
                     if keyed:
                         # .items() through a catching prefetch
